@@ -173,9 +173,27 @@ func main() {
 	// collect obligations of this property
 	var obls []*Obligation
 	var engineFailures []string
+	for _, sc := range eng.staleContracts {
+		if hasProp(sc.props, prop) {
+			engineFailures = append(engineFailures, sc.name+": "+sc.msg)
+		}
+	}
+	// units whose contract could not be evaluated against the current source because a name it mentions
+	// (a local variable, a field, a loop or literal ordinal) no longer resolves: the contract is stale,
+	// e.g. after a rename. Their obligations are undecided, not violated.
+	staleUnits := map[string]string{}
+	for _, sc := range eng.staleContracts {
+		if hasProp(sc.props, prop) {
+			staleUnits[sc.name] = sc.msg
+			staleUnits["main."+sc.name] = sc.msg
+		}
+	}
 	for _, u := range units {
 		for _, f := range u.failed {
 			engineFailures = append(engineFailures, u.name+": "+f)
+			if isStaleContractMsg(f) {
+				staleUnits[u.name] = f
+			}
 		}
 		for _, o := range u.obls {
 			if hasProp(o.Props, prop) {
@@ -334,8 +352,19 @@ func main() {
 		violations = append(violations, reportViolation(prop, replayDir, l, "", eng, seed))
 	}
 	// vanished obligations
+	var staleObls []string
 	for n := range ledger {
 		if _, ok := byName[n]; !ok && onlyRe == nil {
+			stale := false
+			for un := range staleUnits {
+				if strings.HasPrefix(n, un+"/") {
+					stale = true
+				}
+			}
+			if stale {
+				staleObls = append(staleObls, n)
+				continue
+			}
 			l := &logical{Name: n, Kind: "vanished", Status: "vanished"}
 			claimed++
 			violations = append(violations, reportViolation(prop, replayDir, l, "obligation of the unchanged tree no longer generated (function/contract missing or outside the supported subset)", eng, seed))
@@ -343,6 +372,16 @@ func main() {
 	}
 	for _, f := range engineFailures {
 		fmt.Fprintf(os.Stderr, "ENGINE: %s\n", f)
+	}
+	if len(staleObls) > 0 {
+		sort.Strings(staleObls)
+		claimed += len(staleObls)
+		for un, msg := range staleUnits {
+			fmt.Fprintf(os.Stderr, "STALE-CONTRACT: %s: %s (%d obligations of the ledger undecided on this tree: update the contract)\n", un, msg, len(staleObls))
+		}
+		for _, n := range staleObls {
+			undecided = append(undecided, n+" (stale contract)")
+		}
 	}
 	if len(engineFailures) > 0 && len(violations) == 0 {
 		// a unit that could not be executed means its obligations are missing: covered by "vanished"
@@ -375,7 +414,11 @@ func main() {
 		}
 	}
 	for _, a := range eng.cf.Axioms {
-		if !a.Lemma {
+		if a.Lemma {
+			continue
+		}
+		// only the axioms that were given to a solver for this property (or instantiated with use@)
+		if _, used := eng.axiomsUsed.Load(a.Name); used {
 			assumptions["axiom "+a.Name+": "+a.Text] = true
 		}
 	}
@@ -582,4 +625,15 @@ func (e *Engine) lemmaUnit(prop string) (ru *Unit) {
 		u.oblige(st, a.Name, "lemma", []string{prop}, t, 0, a.Text)
 	}
 	return u
+}
+
+// isStaleContractMsg recognises engine errors that mean "the contract text does not fit the source any
+// more" (as opposed to unsupported code or an internal error).
+func isStaleContractMsg(m string) bool {
+	for _, k := range []string{"unknown name ", "is not defined in the old state", "unknown field", "no field or method", "has no loop", "has no literal", "no such label"} {
+		if strings.Contains(m, k) {
+			return true
+		}
+	}
+	return false
 }
